@@ -263,7 +263,8 @@ bui31_next(bitint_iter_t *restrict iter, bituint31_t bi)
 			goto term;
 		}
 		res = bi >> 1U;
-		*iter = res;
+		/* any non-naught value will do, res itself may be naught */
+		*iter = res + 1U;
 	} else if (bi >>= 1U, bi >>= *iter) {
 		for (; !(bi & 0b1U); (*iter)++, bi >>= 1U);
 		res = (*iter)++;
@@ -322,7 +323,8 @@ bui63_next(bitint_iter_t *restrict iter, bituint63_t bi)
 			goto term;
 		}
 		res = bi >> 1U;
-		*iter = res;
+		/* any non-naught value will do, res itself may be naught */
+		*iter = res + 1U;
 	} else if (bi >>= 1U, bi >>= *iter) {
 		for (; !(bi & 0b1U); (*iter)++, bi >>= 1U);
 		res = (*iter)++;
